@@ -40,7 +40,7 @@ def AttOK (x : Att) : Prop :=
 theorem attOK_default : AttOK {} := by
   simp [AttOK, CPc.pair?, CPc.live, CPc.afterCas, CPc.isWrite, CPc.started]
 
-theorem attOK_fresh (d b : Nat) : AttOK { deadline := d, beginAt := b } := by
+theorem attOK_fresh (d b : Nat) (cd : Bool) : AttOK { deadline := d, beginAt := b, ctxDone := cd } := by
   simp [AttOK, CPc.pair?, CPc.live, CPc.afterCas, CPc.isWrite, CPc.started]
 
 def sumStarts (f : Nat → Att) : Nat → Nat
